@@ -15,8 +15,10 @@ for f in kf['findings']:
     if have and not allf:
         f['regress'] = have
         continue
+    saved = {}
     if allf:
         for t in have:
+            saved[t] = open(t, 'rb').read()
             os.remove(t)
     props = f.get('try_properties') or f['properties']
     got = []
@@ -26,6 +28,12 @@ for f in kf['findings']:
         got = sorted(glob.glob('regress/*/*/fix_%s_*.tape' % c))
         if got:
             break
+    if not got and saved:
+        # nothing reproduced this time (budget): keep the earlier tapes rather than losing them
+        for t, b in saved.items():
+            open(t, 'wb').write(b)
+        got = sorted(saved)
+        print('KEPT-OLD', c, flush=True)
     f['regress'] = got
     json.dump(kf, open('known_findings.json', 'w'), indent=1)
 json.dump(kf, open('known_findings.json', 'w'), indent=1)
